@@ -37,7 +37,7 @@ QCLS = [None, "mysql"]
 
 def table_variants():
     out = []
-    for name, (si, schema), alias, (ti, temp), qc in itertools.product(["t", "u"], enumerate(SCHEMAS), [None, "x"], enumerate(TEMPORAL), QCLS):
+    for name, (si, schema), alias, (ti, temp), qc in itertools.product(["t", "u"], enumerate(SCHEMAS), [None, "xq"], enumerate(TEMPORAL), QCLS):
         extra = dict(temp or {})
         if qc:
             extra["query_cls"] = qc
